@@ -30,6 +30,7 @@ class Layout:
         self.cc_by_code = {e["code"]: (n, e) for n, e in self.commands.items()}
         self.framing = snap["framing"]
         self._allowed_cache = {}
+        self._far = {}
 
     @classmethod
     def load(cls, path=SNAPSHOT_PATH):
@@ -95,6 +96,39 @@ class Layout:
         for a, b in self.prims[name]["allowed"]:
             cands.update((a - 1, b + 1))
         return sorted(v for v in cands if lo <= v <= hi and not self.contains(name, v))
+
+    def far_outside_values(self, name):
+        """Structured values of the width that are NOT allowed and not next to an allowed interval: single bits, a high
+        bit on top of a member (vendor / reserved bits), members of the base types that the type leaves out and their
+        neighbours (e.g. the TPM 1.2 tags next to TPM_ST.RSP_COMMAND for a command tag)."""
+        if name in self._far:
+            return self._far[name]
+        lo, hi = self.limits(name)
+        bits = 8 * self.width(name)
+        p = self.prims[name]
+        members = sorted({v for a, b in p["allowed"] for v in (a, b)})
+        cands = set()
+        for k in range(bits):
+            cands.add(1 << k)
+            cands.add((1 << k) - 1)
+            for m in members[:2] + members[-2:]:
+                cands.add(m | (1 << k))
+                cands.add(m ^ (1 << k))
+        for base in p.get("bases", []):
+            bp = self.prims.get(base)
+            if not bp:
+                continue
+            for a, b in bp["allowed"]:
+                if b - a <= 4:
+                    cands.update(range(a - 1, b + 2))
+                else:
+                    cands.update((a - 1, a, a + 1, b - 1, b, b + 1))
+            for m in bp.get("members", []):
+                if "value" in m:
+                    cands.update((m["value"] - 1, m["value"], m["value"] + 1))
+        near = set(self.outside_values(name))
+        self._far[name] = sorted(v for v in cands if lo <= v <= hi and not self.contains(name, v) and v not in near)
+        return self._far[name]
 
     def select(self, union_name, selector):
         """Member name selected in a union by an integer selector (None if no member and no fallback)."""
